@@ -58,6 +58,15 @@ def bookSteps (dist : Fixed64 → Option (RMap × Fixed64)) (voting : Bool) :
       if kind == "a" then
         let s' := accumulate voting b s
         bookSteps dist voting n rest s' (("a:" ++ toString (toInt s'.acc)) :: acc)
+      else if kind == "F" then
+        -- the real forceChange on the synthetic Arbiters: the forced clearing is applied, the arbiter
+        -- rotation after it fails (no producers / committee), so `forceChanged` is not set
+        let s' := match clearing dist false b s with
+          | none => s
+          | some c => { c with forceChanged := s.forceChanged }
+        bookSteps dist voting n rest s'
+          (("F:err " ++ toString s'.forceChanged ++ " " ++ toString (toInt s'.acc) ++ " " ++ toString (toInt s'.change) ++ " " ++ toString (sumMap s'.rr) ++ " " ++
+            toString s'.rr.length) :: acc)
       else
         match clearing dist (kind == "s") b s with
         | none => bookSteps dist voting n rest s ("c:err" :: acc)
@@ -102,7 +111,60 @@ def stepBook : List String → String
     | _, _, _, _, _ => "bad-op"
   | _ => "bad-op"
 
+/-- "<k> (votes delta N)*" per voter → the float total of the N column -/
+def parseVoters : Nat → List String → Option (List Float)
+  | 0, _ => some []
+  | n + 1, k :: rest =>
+    match nat? k with
+    | none => none
+    | some k =>
+      let toks := rest.take (3 * k)
+      let ns : List Float := (List.range k).map (fun j => match int? (toks.getD (3 * j + 2) "0") with
+        | some v => f64 (ofInt v) | none => 0)
+      match parseVoters n (rest.drop (3 * k)) with
+      | some more => some (ns.foldl (· + ·) 0 :: more)
+      | none => none
+  | _, _ => none
+
+def stepV2 : List String → String
+  | reward :: sponsor :: ncrc :: rest =>
+    match int? reward, nat? ncrc with
+    | some reward, some ncrc =>
+      let crc := rest.take ncrc
+      match rest.drop ncrc with
+      | nv :: vrest =>
+        match nat? nv with
+        | some nv =>
+          match parseVoters nv vrest with
+          | some totals =>
+            let R := ofInt reward
+            -- node key of CRC arbiter i: the producer's node ("p…") or its own
+            let onProd := fun (i : Nat) => (crc.getD i "").startsWith "p"
+            let crcMatch : Option Nat :=
+              if sponsor == "p" then (List.range ncrc).find? onProd
+              else if sponsor == "x" then none
+              else (sponsor.drop 1).toNat?.bind (fun i =>
+                -- an arbiter standing on the producer's node shares its key with nobody else here
+                if onProd i then (List.range ncrc).find? onProd else some i)
+            let producerKnown := sponsor == "p" || (match (sponsor.drop 1).toNat? with | some i => onProd i | none => false)
+            let V := BitVec.sdiv (R * 3) 4
+            let totalNI := totals.foldl (· + ·) 0
+            let shares : List (Nat × Fixed64) := ((List.range nv).zip totals).filterMap (fun (j, tn) =>
+              if tn == 0 then none else some (j, ofInt (goInt64' (tn / totalNI * f64 V))))
+            let m := v2Split R crcMatch producerKnown shares
+            let get := fun (k : V2Key) => match m.find? (·.1 == k) with
+              | some e => toString (toInt e.2) | none => "-"
+            toString m.length ++ " P=" ++ get .owner ++
+              String.join ((List.range ncrc).map (fun i => " C" ++ toString i ++ "=" ++ get (.crc i))) ++
+              String.join ((List.range nv).map (fun j => " V" ++ toString j ++ "=" ++ get (.voter j)))
+          | none => "bad-op"
+        | none => "bad-op"
+      | _ => "bad-op"
+    | _, _ => "bad-op"
+  | _ => "bad-op"
+
 def stepC27 : List String → String
+  | "v2split" :: rest => stepV2 rest
   | "book" :: rest => stepBook rest
   | "dist" :: era :: pow :: cfgCRC :: cfgNormal :: reward :: total :: na :: rest =>
     match nat? era, nat? cfgCRC, nat? cfgNormal, int? reward, int? total, nat? na with
